@@ -1,7 +1,7 @@
 """C01 - scope state lookup follows lexical nesting (innermost supplier wins)."""
 import random
 
-from harness.legs import cfg_text, leg_m, leg_mutant, leg_r, leg_t_gen
+from harness.legs import cfg_text, gen_traces, leg_m, leg_mutant, leg_r, leg_t_gen
 from props.scopes_common import TRACE_KW, ScopesDriver, gen_trace
 
 SPEC = "Scopes"
@@ -51,7 +51,7 @@ def run(rep, work, tier, seed):
     # leg T: random programs beyond the exhaustive bound (depth 6, ~28 operations, 1 task(s)) validated by a trace
     # module generated from Scopes.tla
     rnd = random.Random(seed * 13 + 1)
-    traces = [gen_trace(rnd, ntasks=1) for _ in range(150 if tier == "quick" else 2000)]
+    traces = gen_traces(rep, lambda: gen_trace(rnd, ntasks=1), 150 if tier == "quick" else 2000)
     leg_t_gen(rep, work, SPEC, f"trace_{tier}", traces, **TRACE_KW)
     rep.assumptions += [
         "state classes are drawn from a fixed family: A (default-constructible), A2 (subclass of A), B (required "
